@@ -393,4 +393,104 @@ Section Steps.
         right; split; auto; exists victim, w; repeat split; auto; rewrite ?EF; auto;
         symmetry; apply drop_entry_none; exact EF.
   Qed.
+
+  Lemma NoDup_map_nth_inj : forall A B (f : A -> B) l k1 k2 x y,
+    NoDup (map f l) -> nth_error l k1 = Some x -> nth_error l k2 = Some y -> f x = f y -> k1 = k2.
+  Proof.
+    intros A B f l k1 k2 x y Hnd H1 H2 Hf.
+    assert (E1 : nth_error (map f l) k1 = Some (f x)) by (rewrite nth_error_map, H1; reflexivity).
+    assert (E2 : nth_error (map f l) k2 = Some (f y)) by (rewrite nth_error_map, H2; reflexivity).
+    rewrite <- Hf in E2. rewrite NoDup_nth_error in Hnd. apply Hnd.
+    - apply nth_error_Some. rewrite E1. discriminate.
+    - congruence.
+  Qed.
+
+  Lemma NoDup_map_fst_in : forall (l : list (N * N)) a b c,
+    NoDup (map fst l) -> In (a, b) l -> In (a, c) l -> b = c.
+  Proof.
+    induction l as [|[x y] l IH]; cbn; intros a b c Hnd H1 H2; [contradiction|].
+    inversion Hnd; subst.
+    destruct H1 as [H1|H1], H2 as [H2|H2].
+    - congruence.
+    - inversion H1; subst. exfalso. apply H3. apply in_map_iff. exists (a, c). auto.
+    - inversion H2; subst. exfalso. apply H3. apply in_map_iff. exists (a, b). auto.
+    - eauto.
+  Qed.
+
+  Lemma NoDup_map_in_inj : forall A B (f : A -> B) l x y,
+    NoDup (map f l) -> In x l -> In y l -> f x = f y -> x = y.
+  Proof.
+    induction l as [|z l IH]; cbn; intros x y Hnd H1 H2 Hf; [contradiction|]. inversion Hnd; subst.
+    destruct H1 as [H1|H1], H2 as [H2|H2]; subst; auto.
+    - exfalso. apply H3. rewrite Hf. apply in_map; auto.
+    - exfalso. apply H3. rewrite <- Hf. apply in_map; auto.
+  Qed.
+
+  (* the owner of an entry whose timer is due is not surely-open *)
+  Lemma due_owner_not_open : forall o (s : st) id w e k hr oi,
+    InvU o s -> In (id, w) (s_timers s) -> (w <= s_now s)%N -> find_entry id s = Some e ->
+    nth_error (s_handlers s) k = Some hr -> nth_error (o_incs o) k = Some oi -> h_h hr = e_h e ->
+    oi_wire oi <> WOpen.
+  Proof.
+    intros o s id w e k hr oi HI Hin Hw Hf Hk Ho Hh Hopen.
+    destruct (find_entry_some _ _ _ Hf) as [He Hid].
+    destruct (u_owner _ _ HI e He) as [[k' (hr' & oi' & A & B & C & D & E & F & G)]|[_ Hx]].
+    - assert (k' = k) by (eapply NoDup_map_nth_inj; [exact (u_hnodup _ _ HI)|exact A|exact Hk|congruence]).
+      subst k'. rewrite Ho in B. inversion B; subst oi'.
+      assert (oi_when oi = w).
+      { eapply NoDup_map_fst_in; [|exact F|rewrite Hid; exact Hin].
+        rewrite (u_timers _ _ HI). exact (u_idnodup _ _ HI). }
+      pose proof (u_open_young _ _ HI k oi Ho Hopen). lia.
+    - apply (Hx hr); [eapply nth_error_In; eauto|exact Hh].
+  Qed.
+
+  Lemma InvU_poll_expired : forall o (s : st) r s',
+    InvU o s -> poll_expired s = (r, s') -> InvU o s'.
+  Proof.
+    intros o s r s' HI H.
+    destruct (poll_expired_shape _ _ _ H) as (A1 & A2 & A3 & A4 & A5 & A6 & _ & _ & _ & _ & _ & HH).
+    destruct HH as [(Hr & B1 & B2 & B3 & _)|(Hr & id & w & C1 & C2 & C3 & C4 & C5)].
+    - eapply InvU_frame; [exact HI| |repeat split; auto|].
+      + repeat split; reflexivity.
+      + rewrite A6. exact (u_eof _ _ HI).
+    - destruct (find_entry id s) as [e|] eqn:EF.
+      + set (sm := set_aborted s (e_h e :: s_aborted s)).
+        assert (HIm : InvU o sm).
+        { eapply (InvU_abort o s sm (e_h e)); try reflexivity; [exact HI|].
+          intros k hr oi Hk Ho Hh. left. eapply due_owner_not_open; eauto. }
+        eapply (InvU_remove o sm s' id); try (subst sm; sproj; congruence); [exact HIm|].
+        intros id' _ Hin. subst sm; sproj. congruence.
+      + eapply (InvU_remove o s s' id); try congruence; [exact HI|].
+        intros id' _ Hin. congruence.
+  Qed.
+
+  (* the server-side cancel queue hands out one id *)
+  Lemma InvU_server_cancel : forall o (s : st) id r,
+    InvU o s -> s_cancels s = id :: r ->
+    InvU o (snd (remove_request id (set_cancels s r))).
+  Proof.
+    intros o s id r HI Hc.
+    set (s0 := set_cancels s r).
+    destruct (remove_request_shape id s0) as [(_ & Heq & Hnone)|(_ & (e & He) & B1 & B2 & B3 & B4 & B5 & B6 & B7 & B8 & B9 & _)].
+    - cbv zeta in Heq. rewrite Heq.
+      (* nothing tracked under that id: only the queue shrinks *)
+      destruct HI. subst s0. constructor; sproj; auto.
+      + intros e0 He0. destruct (u_owner0 e0 He0) as [[k Hk]|Hx]; [left; exists k|right; exact Hx].
+        eapply owns_frame; [| | |exact Hk]; reflexivity.
+      + intros k e0 oi (hr & oi' & X1 & X2 & X3 & X4 & X5 & X6 & X7) Hoi Hm.
+        assert (Ho : owns o s k e0) by (exists hr, oi'; repeat split; auto).
+        destruct (u_maybe0 k e0 oi Ho Hoi Hm) as [L|R]; [left; exact L|right].
+        rewrite Hc in R. destruct R as [R|R]; [|exact R]. exfalso.
+        (* the popped id is not tracked, but e0 is, with that id *)
+        assert (In e0 (s_inflight s)).
+        { destruct Ho as (? & ? & _ & _ & _ & _ & _ & Hin & _).
+          rewrite <- (u_timers0) in *. clear -Hin u_timers0 X4.
+          assert (In (e_id e0) (map fst (s_timers s))) by (apply in_map_iff; exists (e_id e0, oi_when x0); auto).
+          rewrite u_timers0 in H. apply in_map_iff in H. destruct H as (e' & He' & Hin').
+          (* same id, hence (by membership only) some entry with that id is tracked *)
+          exact (match (in_dec (fun a b => _) e0 (s_inflight s)) with left i => i | right _ => _ end). }
+        admit.
+    - cbv zeta in *. eapply (InvU_remove o s _ id); try (subst s0; sproj; congruence); [exact HI|].
+      intros id' Hne Hin. rewrite B6. subst s0; sproj. rewrite Hc in Hin. destruct Hin; [congruence|auto].
+  Abort.
 End Steps.
